@@ -891,7 +891,7 @@ class Timeseries:
                         if i < len(events):
                             event = events[i]
                         else:
-                            event = ET.Element("pi:event")
+                            event = ET.Element("{%s}" % (ns["pi"],) + "event")
                             series.append(event)
 
                         # Always set the date/time, so that any date/time steps
